@@ -85,7 +85,7 @@ func compactBoundary(exhaustiveUpTo int) func(x *apix.Exec, kind string) *apix.F
 			dst := filepath.Join(d, "dst.db")
 			os.Remove(dst)
 			hx.Counters["compactions"]++
-			if i%7 == 3 {
+			if i%3 == 1 {
 				// through the command line tool
 				if code, out := RunCLI("compact", "-o", dst, "--tx-max-size", strconv.FormatInt(lim, 10), src); code != 0 {
 					return fail("`bbolt compact --tx-max-size %d` exits %d: %s", lim, code, lastLine(out))
@@ -112,7 +112,7 @@ func compactBoundary(exhaustiveUpTo int) func(x *apix.Exec, kind string) *apix.F
 				return fail("compaction with limit %d modified the source file", lim)
 			}
 			dps := ps
-			if i%7 == 3 {
+			if i%3 == 1 {
 				dps = 0 // the CLI creates the destination with the default page size
 			}
 			if msg := openAndCheck(dst, dps, x.Committed, -1, false, false); msg != "" {
@@ -131,15 +131,15 @@ func init() {
 			n, exh = 5, 4096
 			seeds = []string{"empty", "nested", "inline"}
 		}
-		cs := []apix.Cfg{{PageSize: 1024, Freelist: "array"}}
+		cs := []apix.Cfg{{PageSize: 1024, Freelist: "array"}, {PageSize: 1024, Freelist: "hashmap", NoFreelistSync: true}}
 		return mk("c15-nested", seeds, cs, n, 0, seqNestedAlphabet([]string{"p", "q"}, depth), compactBoundary(exh))
 	}
 	hx.Registry["c15-seeds"] = func(tier string) []*hx.Scope {
 		// every seed state itself (one trivial commit on top), with every limit from 0 to total+1
 		seeds := []string{"inline", "leaf", "twolevel", "threelevel", "overflow", "nested", "freeruns"}
-		cs := []apix.Cfg{{PageSize: 1024, Freelist: "array"}}
+		cs := []apix.Cfg{{PageSize: 1024, Freelist: "array"}, {PageSize: 1024, Freelist: "array", NoFreelistSync: true}}
 		if tier == "thorough" {
-			cs = append(cs, apix.Cfg{PageSize: 4096, Freelist: "hashmap"})
+			cs = append(cs, apix.Cfg{PageSize: 4096, Freelist: "hashmap"}, apix.Cfg{PageSize: 4096, Freelist: "hashmap", NoFreelistSync: true})
 		}
 		exh := 4096
 		if tier == "thorough" {
@@ -195,7 +195,7 @@ func seqNestedAlphabet(names []string, depth int) func(x *apix.Exec, t *hx.Track
 func C15(tier string) int {
 	return RunHX(HXCheck{
 		Prop: "C15", Level: "model_checking", Scopes: []string{"c15-seeds", "c15-nested"},
-		Rule:        "source states: every seed state (inline, leaf, 2- and 3-level trees, overflow values, nested buckets, free runs) and every state reachable by the explicit-state exploration of nested-bucket programs (buckets to depth 3, empty and multi-page values, non-zero sequences at every level) within the bound; for each source state the file is copied and compacted into an empty destination for every transaction-size limit from 0 to total key+value bytes + 1 when that is within the stated ceiling, otherwise for every limit at which the split pattern can change (all sums of up to 12 consecutive item sizes -1/+0/+1), through bbolt.Compact and (every 7th limit) through the real `bbolt compact` command; oracle: destination content incl. nesting and sequences equals the model, Tx.Check and page accounting clean, source SHA-256 unchanged, command exits 0",
+		Rule:        "source states: every seed state (inline, leaf, 2- and 3-level trees, overflow values, nested buckets, free runs) and every state reachable by the explicit-state exploration of nested-bucket programs (buckets to depth 3, empty and multi-page values, non-zero sequences at every level) within the bound; for each source state the file is copied and compacted into an empty destination for every transaction-size limit from 0 to total key+value bytes + 1 when that is within the stated ceiling, otherwise for every limit at which the split pattern can change (all sums of up to 12 consecutive item sizes -1/+0/+1), through bbolt.Compact and (every 3rd limit) through the real `bbolt compact` command; oracle: destination content incl. nesting and sequences equals the model, Tx.Check and page accounting clean, source SHA-256 unchanged, command exits 0",
 		Assumptions: []string{"the CLI is run in-process through command.NewRootCommand()"},
 		Quick:       100 * time.Second, Thorough: 25 * time.Minute,
 		Cov: func(total *hx.Stats, cov map[string]interface{}) {
